@@ -162,12 +162,14 @@ class Inspector:
             # We avoid `inspect.getdoc` to avoid getting
             # the `__doc__` attribute from a parent class,
             # but we still want to clean the doc.
-            cleaned = cleandoc(value)
+            cleandoc(value)
         except AttributeError:
             # Triggered on method descriptors.
             return None
+        # The docstring class cleans the value itself: cleaning it twice would strip
+        # the indentation of a docstring whose first line is blank.
         return Docstring(
-            cleaned,
+            value,
             parser=self.docstring_parser,
             parser_options=self.docstring_options,
         )
